@@ -39,14 +39,10 @@ PATTERNS = ["*.qchemlog"]
     [
         "atcoords",
         "atnums",
-        "energy",
         "mo",
-        "lot",
-        "obasis_name",
-        "run_type",
         "extra",
     ],
-    ["athessian", "atmasses", "g_rot"],
+    ["athessian", "atmasses", "energy", "g_rot", "lot", "obasis_name", "run_type"],
 )
 def load_one(lit: LineIterator) -> dict:
     """Do not edit this docstring. It will be overwritten."""
